@@ -39,6 +39,21 @@ def _on_prof(signum, frame):
 
 def install_watchdog():
     signal.signal(signal.SIGPROF, _on_prof)
+    try:
+        import resource
+        lim = int(os.environ.get('VERIF_MEM_GB', '3')) << 30
+        soft, hard = resource.getrlimit(resource.RLIMIT_AS)
+        if hard == resource.RLIM_INFINITY or hard > lim:
+            resource.setrlimit(resource.RLIMIT_AS, (lim, hard))
+    except Exception:
+        pass
+
+
+class AbortCampaign(BaseException):
+    "stops a Hypothesis campaign at once (used after a watchdog expiry: shrinking a 20-second case is pointless)"
+
+
+MAX_WATCHDOG_HITS = 3
 
 
 class guard:
@@ -146,6 +161,7 @@ class Rec:
         self.known_hits = collections.Counter()
         self.skipped = collections.Counter()
         self.layers = []
+        self.watchdog_hits = 0
         # per-case state
         self._kind = None
         self._case = None
@@ -223,11 +239,19 @@ class Rec:
                 self.samples.append(s)
 
     def run_case(self, checks, kind, case):
+        if self.watchdog_hits >= MAX_WATCHDOG_HITS:
+            # every expiry costs WATCHDOG_S of CPU; after a few of them the verdict is settled and the rest of this process' share is skipped
+            self.skipped['skipped-after-%d-watchdog-expiries' % MAX_WATCHDOG_HITS] += 1
+            return []
         self.begin(kind, case)
         try:
             checks[kind](case, self)
         except Watchdog as e:
+            self.watchdog_hits += 1
             self.fail('watchdog:' + kind, str(e))
+        except MemoryError as e:
+            self.watchdog_hits += 1
+            self.fail('watchdog:memory:' + kind, 'MemoryError under the %s GB address-space limit' % os.environ.get('VERIF_MEM_GB', '3'))
         return self.end()
 
     # ---- merging
@@ -408,6 +432,11 @@ class Ctx:
             new = [b for b in new if b not in reported]
             if not new:
                 return
+            wd = [b for b in new if b.startswith('watchdog:')]
+            if wd:
+                state['target'] = wd[0]
+                state['last'] = case
+                raise AbortCampaign()
             if state['target'] is None:
                 state['target'] = new[0]
             if state['target'] in new:
@@ -426,6 +455,11 @@ class Ctx:
             test = hseed(self.seed * 1000003 + seed_key * 101 + rounds)(st(given(strategy)(body)))
             try:
                 test()
+                break
+            except AbortCampaign:
+                f = rec.failures.get(state['target'])
+                if f is not None:
+                    f['shrunk'] = 'not-shrunk(watchdog)'
                 break
             except hypothesis.errors.Unsatisfiable as e:
                 raise HarnessError('generator unsatisfiable: %s' % e)
